@@ -242,10 +242,33 @@ func init() {
 		"fmt.Fprintln": func(in *Interp, fr *Frame, a []Value) (Value, bool) {
 			return in.writeTo(a[0], sprint(in, sliceArgs(a[1]), true)), true
 		},
+		"fmt.Appendf": func(in *Interp, fr *Frame, a []Value) (Value, bool) {
+			return in.appendBytes(a[0], render(in, concStrArg(a[1]), sliceArgs(a[2]))), true
+		},
+		"fmt.Append": func(in *Interp, fr *Frame, a []Value) (Value, bool) {
+			return in.appendBytes(a[0], sprint(in, sliceArgs(a[1]), false)), true
+		},
+		"fmt.Appendln": func(in *Interp, fr *Frame, a []Value) (Value, bool) {
+			return in.appendBytes(a[0], sprint(in, sliceArgs(a[1]), true)), true
+		},
 		"fmt.Println": func(in *Interp, fr *Frame, a []Value) (Value, bool) { return tuple(mkInt(0, 64), nilErr), true },
 		"fmt.Print":   func(in *Interp, fr *Frame, a []Value) (Value, bool) { return tuple(mkInt(0, 64), nilErr), true },
 	}
 	for k, f := range ix {
 		intrinsics[k] = f
 	}
+}
+
+
+// appendBytes: append(dst, []byte(s)...) for the fmt.Append family.
+func (in *Interp) appendBytes(dst Value, s Value) Value {
+	var cells []Value
+	if dst.R != nil {
+		cells = append(cells, dst.R.(*SliceV).S...)
+	}
+	b := in.stringToBytes(s)
+	if b.R != nil {
+		cells = append(cells, b.R.(*SliceV).S...)
+	}
+	return Value{K: KSlice, R: &SliceV{S: cells}}
 }
